@@ -417,7 +417,9 @@ def judge_c07(tier, seed):
     the others agree with it is a disagreement between X and them"""
     c = LCtx(tier, seed)
     c.build_problems("C07", ["python", "cxx", "java"])
-    rust = rustcodec.collect(tier, seed)
+    # Rust through the QUICK corpus in both tiers (the same descriptions as the other three
+    # languages run; Rust against the reference on the thorough corpus is C03 / C04's subject)
+    rust = rustcodec.collect("quick", seed)
     for name, m in c.data["modules"].items():
         orc = m["oracle"]
         rm = rust["modules"].get(name, {})
